@@ -46,7 +46,7 @@ PROPS = {
                        "char-boundary safety of span slicing beyond the reviewed lexer invariant",
     },
     "C04": {
-        "rules": [r_coord.run, r_doaction.rule_state_push, r_layers.rule_fill],
+        "rules": [r_coord.run, r_doaction.rule_state_push, r_layers.rule_fill, r_layers.rule_press_dedup],
         "explanation": "Narrow: (R-FILL) the default fill of unassigned layer positions is decided from block-unmapped-keys and the "
                        "key only, never from the layer index, and position 0 is forced to NoOp; decides the release half of layered remapping — every state a press creates is keyed on the "
                        "coordinate (never the layer) and removed by Release at that coordinate (R-COORD); the key / layer / custom "
@@ -148,7 +148,7 @@ PROPS = {
                        "scroll states, recorded macros is deliberately retained); file index selection arithmetic",
     },
     "C16": {
-        "rules": [r_pipeline.run, r_pipeline.run_template],
+        "rules": [r_pipeline.run, r_pipeline.run_template, r_pipeline.run_vars],
         "explanation": "Narrow: decides the ordering preconditions of transparent indirection — the pre-processing stages are chained "
                        "include -> platform -> env -> template, each consuming the previous stage's result (data-flow order of the "
                        "and_then chain), parse_vars runs after pre-processing and dominates every parser that (transitively) "
@@ -157,7 +157,7 @@ PROPS = {
                        "(e.g. simultaneous vs sequential parameter substitution) — relations between two programs",
     },
     "C14": {
-        "rules": [r_traverse.run_repeat, r_repeat.run_outputs, r_repeat.run],
+        "rules": [r_traverse.run_repeat, r_repeat.run_outputs, r_repeat.run, r_repeat.run_collect],
         "explanation": "Decides: the repeat-table builder passes every nested action of every Action variant (derived from the "
                        "type) to its recursion and records every key-code-bearing variant (R-TRAVERSE, R-RPT-TABLE); in "
                        "handle_repeat_actual every write of a repeat is reachable only through a 'key currently held' test, at "
